@@ -166,6 +166,12 @@ def _collect(body, lossy=False, unsafe=True):
                     kind = "BOUNDSCALL"
                 else:
                     kind = "RANGEIDX"
+            if kind is None:
+                mo = None
+                for n in names:
+                    mo = mo or re.match(r"^<&?(?:'\w+ )?(?:u8|u16|u32|u64|u128|usize|i8|i16|i32|i64|i128|isize) as std::ops::(Add|Sub|Mul|Div|Rem|Shl|Shr|Neg)<?", n)
+                if mo:
+                    out.append(Oblig(body, bb, "OVF", mo.group(1) + "-call", t, line=t["line"], desc=callee_name(t), exp=t.get("expk", "")))
             if kind:
                 nm = callee_name(t).split("::")[-1]
                 out.append(Oblig(body, bb, kind, nm, t, line=t["line"], desc=callee_name(t), exp=t.get("expk", "")))
